@@ -677,6 +677,70 @@ pub fn finalize(out: ShardOut, is_replay: bool) -> CheckResult {
     }
 }
 
+/// C01 under storage trouble: while a chain is being walked through the HTTP handlers, each storage
+/// call of each step fails once. A step may then be answered with an error (the replica tries again),
+/// never with "no child" or "gone" for a parent whose child was accepted, and never with another
+/// version: a replica would stop early or branch.
+pub fn c01_walk_under_faults(seed: u64, cov: &mut Cov) -> Option<Found> {
+    let cfg = Config { snapshot_days: 14, snapshot_versions: 4 };
+    let mut base = Subject::new(Kind::SQL_LIB, cfg).ok()?;
+    let c = Rng::new(seed).fork(0xC01F).uuid();
+    let mut chain: Vec<(Uuid, Uuid, Vec<u8>)> = vec![];
+    let mut p = Uuid::nil();
+    for i in 0..4u8 {
+        let data = vec![i + 1; 30 + i as usize];
+        if let Resp::AddOk { vid, .. } = base.exec(c, &Req::AddVersion { parent: p, data: data.clone() }) {
+            chain.push((vid, p, data));
+            p = vid;
+        }
+    }
+    if chain.len() < 4 {
+        return None;
+    }
+    let _ = base.exec(c, &Req::AddSnapshot { vid: chain[2].0, data: b"snapshot".to_vec() });
+    let img = ScratchDir::new("c01img");
+    copy_dir(base.dir.as_ref().unwrap().path(), img.path()).ok()?;
+    let hook = FaultHook::new();
+    for kind in [Kind::SQL_HTTP, Kind::SQL_LIB] {
+        for (step, (vid, par, data)) in chain.iter().enumerate() {
+            let req = Req::GetChild { parent: *par };
+            let n = {
+                let mut s = open_copy(img.path(), kind, &hook).ok()?;
+                hook.reset(-1, false);
+                let _ = s.exec(c, &req);
+                hook.counter.load(Ordering::SeqCst)
+            };
+            for idx in 0..n {
+                let mut s = open_copy(img.path(), kind, &hook).ok()?;
+                hook.reset(idx, false);
+                let resp = s.exec(c, &req);
+                let fired = hook.fired.load(Ordering::SeqCst);
+                let call = hook.log.lock().unwrap().get(idx as usize).map(|e| format!("{:?}", e.call)).unwrap_or_default();
+                hook.reset(-1, false);
+                cov.evaluations += 1;
+                if !fired {
+                    continue;
+                }
+                cov.hit(format!("walk-under-storage-failure|{}|{call}|{}", kind.name(), resp.outcome()));
+                let ok = match &resp {
+                    Resp::Error(_) => true,
+                    Resp::Found { vid: v, parent: q, data: d } => v == vid && q == par && d == data,
+                    _ => false,
+                };
+                if !ok {
+                    return Some(Found {
+                        property: "C01".into(),
+                        signature: format!("C01:walk under storage failure answered {}", resp.outcome()),
+                        msg: format!("[{}] walk step {step} (GetChildVersion of a parent whose child {vid} was accepted) with storage call #{idx} ({call}) failing was answered {}: a replica walking the chain would stop or go astray instead of trying again", kind.name(), resp.short()),
+                        replay: json!({"origin": "c01-walk-faults", "case": step * 100 + idx as usize}),
+                    });
+                }
+            }
+        }
+    }
+    None
+}
+
 /// C14 under storage failures: whenever a storage call fails while the HTTP handlers serve a
 /// request, the response must say so (5xx) - not 404 "no snapshot", not 200, not 409.
 pub fn c14_fault_twin(seed: u64, cov: &mut Cov) -> Option<Found> {
